@@ -3,7 +3,11 @@
  *  DIR   private directory of the case; the job appends one line to DIR/count
  *        (the command ran exactly once), writes DIR/cwd, DIR/umask, DIR/ppid and
  *        copies its whole stdin to DIR/stdin
- *  MODE  silent | out3 | err3 | alt50 | big | cat
+ *  MODE  silent | out3 | err3 | alt50 | big | cat | stopcont
+ *        stopcont: 25 lines to each stream, then the job STOPS itself (SIGSTOP) and is
+ *        continued half a second later by a helper it forked before (the helper holds none
+ *        of the job's descriptors; it notes `T' in DIR/stopped once /proc shows the job
+ *        stopped), then 25 more lines to each stream
  *        stdout bytes are lower-case letters and \n, stderr bytes are upper-case
  *        letters and \t, so every byte in a shared file or mail body is
  *        attributable to its stream; DIR/exp.out and DIR/exp.err receive
@@ -18,6 +22,7 @@
 #include <signal.h>
 #include <errno.h>
 #include <sys/stat.h>
+#include <sys/wait.h>
 
 static int xo = -1, xe = -1;
 
@@ -75,6 +80,60 @@ xopen(const char *dir, const char *name, int fl)
 		_exit(98);
 	}
 	return fd;
+}
+
+/* state letter of process P in /proc/P/stat, 0 if unreadable */
+static char
+pstate(pid_t p)
+{
+	char fn[64], buf[512], *q;
+	ssize_t n;
+	int fd;
+
+	snprintf(fn, sizeof(fn), "/proc/%d/stat", (int)p);
+	if ((fd = open(fn, O_RDONLY)) < 0) {
+		return 0;
+	}
+	n = read(fd, buf, sizeof(buf) - 1);
+	close(fd);
+	if (n <= 0) {
+		return 0;
+	}
+	buf[n] = '\0';
+	/* pid (comm) S ...: the state follows the LAST closing parenthesis */
+	return (q = strrchr(buf, ')')) != NULL && q[1] == ' ' ? q[2] : 0;
+}
+
+/* the job stops itself; a helper forked beforehand (no descriptor of the job left open in it)
+ * waits until the job is seen stopped, lets half a second pass and continues it */
+static void
+stop_and_be_continued(const char *dir)
+{
+	pid_t me = getpid(), h;
+
+	if ((h = fork()) < 0) {
+		_exit(95);
+	} else if (h == 0) {
+		int fd, seen = 0;
+
+		for (fd = 0; fd < 1024; fd++) {
+			close(fd);
+		}
+		for (int i = 0; i < 1000 && !(seen = pstate(me) == 'T'); i++) {
+			usleep(10000);
+		}
+		if (seen) {
+			fd = xopen(dir, "stopped", O_TRUNC);
+			full_write(fd, "T\n", 2);
+			close(fd);
+		}
+		usleep(500000);
+		kill(me, SIGCONT);
+		_exit(0);
+	}
+	raise(SIGSTOP);
+	/* continued */
+	while (waitpid(h, NULL, 0) < 0 && errno == EINTR);
 }
 
 int
@@ -145,6 +204,14 @@ main(int argc, char *argv[])
 		/* 200 KiB to each, alternating in 4 KiB writes */
 		for (int i = 0; i < 50; i++) {
 			emit(0, 4096), emit(1, 4096);
+		}
+	} else if (!strcmp(mode, "stopcont")) {
+		for (int i = 0; i < 25; i++) {
+			emit(0, 64), emit(1, 64);
+		}
+		stop_and_be_continued(dir);
+		for (int i = 0; i < 25; i++) {
+			emit(0, 64), emit(1, 64);
 		}
 	} else if (strcmp(mode, "silent") && !catp) {
 		return 96;
